@@ -544,7 +544,9 @@ func (c *controlConn) awaitSchemaAgreement() error {
 }
 
 func (c *controlConn) close() {
-	if atomic.CompareAndSwapInt32(&c.state, controlConnStarted, controlConnClosing) {
+	// closing is final whatever the previous state was: a heartBeat goroutine that has not been
+	// scheduled yet must find it and return instead of starting after the session is closed.
+	if atomic.SwapInt32(&c.state, controlConnClosing) == controlConnStarted {
 		c.quit <- struct{}{}
 	}
 
